@@ -81,7 +81,13 @@ def run_call(c, keep=None):
             r = getattr(bitstring, c['cls']).fromstring(c['s'])
             if keep is not None:
                 keep.append(r)
-            return ['ok', r.bin if len(r) else '']
+            out = ['ok', r.bin if len(r) else '']
+            if c.get('then_mutate') and isinstance(r, bitstring.BitArray):
+                # the object is the caller's: changing it in place says nothing about what the text means next time
+                if len(r):
+                    r.invert()
+                r.append('0b1')
+            return out
         if kind == 'ctor-kw':
             kw = {c['name']: c['value']}
             if c.get('length') is not None:
@@ -194,7 +200,11 @@ def run_call(c, keep=None):
 
 def set_opts(o):
     import bitstring
-    bitstring.options.lsb0, bitstring.options.bytealigned, bitstring.options.mxfp_overflow = o[0], o[1], o[2]
+    # an option is assigned only when it is to change (assigning the value it already has is not what the histories are about,
+    # and would hide what a refused assignment in between has left behind)
+    for name, v in zip(('lsb0', 'bytealigned', 'mxfp_overflow'), o):
+        if getattr(bitstring.options, name) != v:
+            setattr(bitstring.options, name, v)
 
 
 def cold_main():
@@ -292,6 +302,11 @@ def gen_history(ctx, n):
                 opts[2] = 'overflow' if opts[2] == 'saturate' else 'saturate'
             hist.append({'kind': 'toggle', 'opts': list(opts)})
             continue
+        if r < 0.06:
+            # an assignment to an option that is refused (or whose value cannot be judged) leaves every option as it was
+            hist.append({'kind': 'bad-toggle', 'what': rng.choice(['mxfp:clip', 'mxfp:Saturate', 'mxfp:None', 'mxfp:overflow ', 'lsb0:badbool', 'bytealigned:badbool']),
+                         'opts': list(opts)})
+            continue
         if r < 0.10:
             hist.append({'kind': 'mutate-earlier', 'how': rng.choice(['invert', 'append', 'tobitarray-invert', 'clear', 'derive', 'array-data']),
                          'opts': list(opts)})
@@ -307,6 +322,13 @@ def gen_history(ctx, n):
                 c['s'] = respell(rng, c['s'])
             elif r2 < 0.25:
                 c['s'] = rng.choice(EMPTY_SPELLINGS)
+            if k == 'fromstring' and rng.random() < 0.5:
+                # the object made is changed in place straight away and the same text is used again, by either route
+                c['then_mutate'] = True
+                c['opts'] = list(opts)
+                hist.append(c)
+                counts[k] = counts.get(k, 0) + 1
+                c = {'kind': rng.choice(['ctor', 'fromstring']), 'cls': rng.choice(['Bits', 'BitArray', 'ConstBitStream', 'BitStream']), 's': c['s']}
         elif k == 'print':
             c = {'kind': k, 'what': rng.choice(['array', 'array', 'bits']), 'tok': rng.choice(['uint6', 'uint8', 'int4', 'float16', 'hex4', 'bool', 'e4m3mxfp', 'uint12']),
                  'items': rng.choice([[1, 2, 3], [0], [], [1, 0, 1, 1, 0, 1, 0, 0, 1]]), 'data': rbits(rng.choice([0, 7, 24, 61])),
@@ -371,6 +393,23 @@ def gen_history(ctx, n):
     return hist
 
 
+class _BadBool:
+    def __bool__(self):
+        raise RuntimeError('no truth value')
+
+
+def bad_toggle(what):
+    import bitstring
+    name, v = what.split(':', 1)
+    try:
+        if name == 'mxfp':
+            bitstring.options.mxfp_overflow = None if v == 'None' else v
+        else:
+            setattr(bitstring.options, name, _BadBool())
+    except Exception:  # noqa: BLE001 - refused, as it should be
+        pass
+
+
 def warm_pass(ctx, hist):
     """Execute the history in this (warm) interpreter; returns the list of outcomes (None for non-calls)."""
     import bitstring
@@ -390,6 +429,11 @@ def warm_pass(ctx, hist):
         if c['kind'] == 'toggle':
             ctx.op('toggle')
             out.append(None)
+            continue
+        if c['kind'] == 'bad-toggle':
+            ctx.op('bad-toggle')
+            out.append(None)
+            bad_toggle(c['what'])
             continue
         if c['kind'] == 'mutate-earlier':
             ctx.op('mutate-earlier')
@@ -440,7 +484,7 @@ def call_key(c):
 
 
 def compare(ctx, hist, warm, store_history=True):
-    calls = [(i, c) for i, c in enumerate(hist) if c['kind'] not in ('toggle', 'mutate-earlier')]
+    calls = [(i, c) for i, c in enumerate(hist) if c['kind'] not in ('toggle', 'mutate-earlier', 'bad-toggle')]
     cold = cold_pass([c for _, c in calls])
     first_opts = {}
     seen_at = {}
@@ -533,6 +577,26 @@ DIRECTED = [
      {'kind': 'readlist', 'fmt': 'ue, bits', 'data': '0100110001001001110111001111000111111100', 'kw': {}, 'opts': [False, False, 'saturate']},
      {'kind': 'dtype', 'tok': 'sie', 'len': None, 'opts': [False, False, 'saturate']},
      {'kind': 'readlist', 'fmt': 'sie, bits', 'data': '0100110001001001110111001111000111111100', 'kw': {}, 'opts': [False, False, 'saturate']}],
+    # D(iv): an option assignment that is refused, then values that depend on that option
+    [{'kind': 'ctor', 'cls': 'Bits', 's': 'e4m3mxfp=449.0', 'opts': [False, False, 'saturate']},
+     {'kind': 'bad-toggle', 'what': 'mxfp:clip', 'opts': [False, False, 'saturate']},
+     {'kind': 'ctor', 'cls': 'Bits', 's': 'e4m3mxfp=1000', 'opts': [False, False, 'saturate']},
+     {'kind': 'ctor', 'cls': 'BitArray', 's': 'e5m2mxfp=1e6', 'opts': [False, False, 'saturate']},
+     {'kind': 'pack', 'fmt': 'e4m3mxfp, u4', 'vals': [1000.0, 2], 'kw': {}, 'opts': [False, False, 'saturate']},
+     {'kind': 'ctor-kw', 'cls': 'Bits', 'name': 'e5m2mxfp', 'value': -1e6, 'length': None, 'opts': [False, False, 'saturate']},
+     {'kind': 'toggle', 'opts': [False, False, 'overflow']},
+     {'kind': 'bad-toggle', 'what': 'mxfp:Saturate', 'opts': [False, False, 'overflow']},
+     {'kind': 'ctor', 'cls': 'Bits', 's': 'e4m3mxfp=-1000', 'opts': [False, False, 'overflow']},
+     {'kind': 'bad-toggle', 'what': 'lsb0:badbool', 'opts': [False, False, 'overflow']},
+     {'kind': 'readlist', 'fmt': 'u5, bits', 'data': '0100110001001001', 'kw': {}, 'opts': [False, False, 'overflow']},
+     {'kind': 'toggle', 'opts': [False, False, 'saturate']},
+     {'kind': 'ctor', 'cls': 'Bits', 's': 'e4m3mxfp=1000', 'opts': [False, False, 'saturate']}],
+    # D(v): an object made by fromstring is changed in place; the text is used again
+    [{'kind': 'fromstring', 'cls': 'BitStream', 's': '0x3c5a, 0b101', 'then_mutate': True, 'opts': [False, False, 'saturate']},
+     {'kind': 'ctor', 'cls': 'Bits', 's': '0x3c5a, 0b101', 'opts': [False, False, 'saturate']},
+     {'kind': 'fromstring', 'cls': 'BitArray', 's': 'uint12=77', 'then_mutate': True, 'opts': [False, False, 'saturate']},
+     {'kind': 'fromstring', 'cls': 'ConstBitStream', 's': 'uint12=77', 'opts': [False, False, 'saturate']},
+     {'kind': 'ctor', 'cls': 'BitStream', 's': 'uint12=77', 'opts': [False, False, 'saturate']}],
 ]
 
 
